@@ -104,7 +104,9 @@ public:
       }
     auto catalog(mounted->volume()->root());
 
-    int sectors_used = 2;
+    // With no files, the catalog's own sectors are the only ones in use
+    // (two, but four for a Watford DFS 62-file catalog).
+    int sectors_used = catalog.catalog_sectors();
     const std::vector<DFS::CatalogEntry> entries = catalog.entries();
     for (const auto& entry : entries)
       {
